@@ -58,7 +58,8 @@ func NewWriteAheadLog(opts *Options) (WriteAheadLogI, error) {
 	}
 	replayer, err := NewReplayer(opts)
 	if err != nil {
-		return nil, err
+		// the appender has its first file open already
+		return nil, errors.Join(err, appender.Close())
 	}
 	return &WriteAheadLog{
 		appender,
